@@ -72,7 +72,33 @@ pub fn run_val(tier: &str, seed: u64, out: &mut Out) {
         let mut close = String::new();
         let mut ref_open = String::new();
         let mut ref_close = String::new();
+        let mut n_slot_levels = 0;
         for d in 0..depth {
+            // a slot-value level: <c><v slot:n1 slot:n2="alias">: one scope per reference, in attribute order
+            if rng.chance(1, 3) {
+                let pool = [("sv", "sv"), ("a-b", "aB"), ("item", "item"), ("x", "x")];
+                let k = 1 + rng.below(3);
+                let first = rng.below(pool.len());
+                let mut attrs = String::new();
+                for q in 0..k {
+                    let (raw, camel) = pool[(first + q) % pool.len()];
+                    let alias = if rng.chance(1, 2) { Some(*rng.pick(&["al", "index", "it2", "item", "a"])) } else { None };
+                    match alias {
+                        Some(al) => {
+                            attrs.push_str(&format!(" slot:{}=\"{}\"", raw, al));
+                            stack.push((al.to_string(), format!("SV[\"{}\"]", camel)));
+                        }
+                        None => {
+                            attrs.push_str(&format!(" slot:{}", raw));
+                            stack.push((camel.to_string(), format!("SV[\"{}\"]", camel)));
+                        }
+                    }
+                }
+                open.push_str(&format!("<c><v{}>", attrs));
+                close = format!("</v></c>{}", close);
+                n_slot_levels += 1;
+                continue;
+            }
             let idents: Vec<String> = DATA_FIELDS.iter().map(|s| s.to_string()).chain(stack.iter().map(|x| x.0.clone())).collect();
             // the list expression is resolved in the scopes outside this loop
             let list = match rng.below(4) {
@@ -139,8 +165,11 @@ pub fn run_val(tier: &str, seed: u64, out: &mut Out) {
         let after = GE::Ident(if depth > 0 { stack.last().unwrap().0.clone() } else { "a".into() });
         let st_after: Vec<(String, String)> = stack.iter().take(if with_module { 1 } else { 0 }).cloned().collect();
         let after_ref = after.reference_js(&|n| st_after.iter().rev().find(|x| x.0 == n).map(|x| x.1.clone()));
-        let src = format!("{}{}T{{{{ {} }}}}{}<w/>A{{{{ {} }}}}", head, open, e_wxml, close, after.wxml(&mut no_extra));
-        let reference = format!("{}{}out.push('T' + Y({}));\n{}out.push('A' + Y({}));\nreturn out }})()", ref_head, ref_open, e_ref, ref_close, after_ref);
+        // ... nor may they shift the scopes of a loop that follows
+        let src = format!("{}{}T{{{{ {} }}}}{}<w/>A{{{{ {} }}}}<block wx:for=\"{{{{ [7] }}}}\" wx:for-item=\"z9\" wx:for-index=\"z8\">Z{{{{ z9 }}}}{{{{ {} }}}}</block>",
+                          head, open, e_wxml, close, after.wxml(&mut no_extra), after.wxml(&mut no_extra));
+        let reference = format!("{}const SV = {{sv: 'SLOT-sv', aB: [{{a: 'SLOT-aB', sub: ['s1', 's2']}}], item: {{a: 3, sub: {{k: 'SLOT-item'}}}}, x: 'SLOT-x'}};\n{}out.push('T' + Y({}));\n{}out.push('A' + Y({}));\nout.push('Z7' + Y({}));\nreturn out }})()",
+                                ref_head, ref_open, e_ref, ref_close, after_ref, after_ref);
         let mut g = TmplGroup::new();
         let diags = g.add_tmpl("p", &src);
         let max_level = diags.iter().map(|d| d.kind.level() as u8).max().unwrap_or(0);
@@ -158,7 +187,9 @@ pub fn run_val(tier: &str, seed: u64, out: &mut Out) {
             datas.push(d);
         }
         let job = serde_json::json!({"kind": "scopeval", "id": i, "src": src, "ref": reference, "bundle": bundle,
-                                     "max_level": max_level, "datas": datas, "depth": depth, "module": with_module});
+                                     "max_level": max_level, "datas": datas, "depth": depth, "module": with_module, "slot_levels": n_slot_levels,
+                                     "slotValues": {"$o": {"sv": "SLOT-sv", "aB": {"$a": [{"$o": {"sub": {"$a": ["s1", "s2"]}, "a": "SLOT-aB"}}]},
+                                                           "item": {"$o": {"sub": {"$o": {"k": "SLOT-item"}}, "a": 3}}, "x": "SLOT-x"}}});
         out.raw(&job.to_string());
     }
 }
